@@ -108,7 +108,9 @@ def run(tier, seed, factor=1):
     nh = common.scale(tier, 3000, 60000) * factor
     cases = [uint.rand_history(rnd) for _ in range(nh)]
     # some bigger ones
+    cases += [uint.rand_history(rnd, max_classes=4, max_rules=10, max_shift=5) for _ in range(nh // 3)]
     cases += [uint.rand_history(rnd, max_classes=20, max_rules=40, max_shift=3) for _ in range(nh // 20)]
+    cases += [uint.layered_history(rnd) for _ in range(nh)]
     cases += uint.forest_test_universes()
     check_batch(res, cases, common.scale(tier, 2, 6), "rand")
     if tier == "thorough":
